@@ -78,6 +78,11 @@ func GetContainerStartTime(pod *corev1.Pod) metav1.Time {
 		if status := container.State.Terminated; status != nil && !ktime.IsUnixZero(&status.StartedAt) {
 			t = *ktime.TimeMax(&status.StartedAt, &t)
 		}
+
+		// A container that is waiting to be restarted has started before.
+		if status := container.LastTerminationState.Terminated; status != nil && !ktime.IsUnixZero(&status.StartedAt) {
+			t = *ktime.TimeMax(&status.StartedAt, &t)
+		}
 	}
 
 	return t
